@@ -1,0 +1,132 @@
+//go:build verif
+
+// Contracts for the verification machinery under /verif (contract-based deductive
+// verification). This file is comment-only, is excluded from every normal build by the
+// "verif" build tag, and declares nothing. See /verif/DESIGN.md §4.
+
+package funcs
+
+// C16: the tables built by this package's initialiser equal, entry by entry, the FHIRPath N1
+// function list (/verif/contracts/n1_functions.json): name -> implementation of that same
+// name and the argument counts the specification allows; unimplemented names are bound to
+// the explicit not-implemented function; no other name is present.
+//@ func init()
+//@   ensures haskey(baseTable, "empty") && baseTable["empty"].Func == impl.Empty && baseTable["empty"].MinArity == 0 && baseTable["empty"].MaxArity == 0
+//@   ensures haskey(baseTable, "exists") && baseTable["exists"].Func == impl.Exists && baseTable["exists"].MinArity == 0 && baseTable["exists"].MaxArity == 1
+//@   ensures haskey(baseTable, "all") && baseTable["all"].Func == impl.All && baseTable["all"].MinArity == 1 && baseTable["all"].MaxArity == 1
+//@   ensures haskey(baseTable, "allTrue") && baseTable["allTrue"].Func == impl.AllTrue && baseTable["allTrue"].MinArity == 0 && baseTable["allTrue"].MaxArity == 0
+//@   ensures haskey(baseTable, "anyTrue") && baseTable["anyTrue"].Func == impl.AnyTrue && baseTable["anyTrue"].MinArity == 0 && baseTable["anyTrue"].MaxArity == 0
+//@   ensures haskey(baseTable, "allFalse") && baseTable["allFalse"].Func == impl.AllFalse && baseTable["allFalse"].MinArity == 0 && baseTable["allFalse"].MaxArity == 0
+//@   ensures haskey(baseTable, "anyFalse") && baseTable["anyFalse"].Func == impl.AnyFalse && baseTable["anyFalse"].MinArity == 0 && baseTable["anyFalse"].MaxArity == 0
+//@   ensures haskey(baseTable, "subsetOf") && baseTable["subsetOf"].Func == unimplemented
+//@   ensures haskey(baseTable, "supersetOf") && baseTable["supersetOf"].Func == unimplemented
+//@   ensures haskey(baseTable, "count") && baseTable["count"].Func == impl.Count && baseTable["count"].MinArity == 0 && baseTable["count"].MaxArity == 0
+//@   ensures haskey(baseTable, "distinct") && baseTable["distinct"].Func == impl.Distinct && baseTable["distinct"].MinArity == 0 && baseTable["distinct"].MaxArity == 0
+//@   ensures haskey(baseTable, "isDistinct") && baseTable["isDistinct"].Func == impl.IsDistinct && baseTable["isDistinct"].MinArity == 0 && baseTable["isDistinct"].MaxArity == 0
+//@   ensures haskey(baseTable, "where") && baseTable["where"].Func == impl.Where && baseTable["where"].MinArity == 1 && baseTable["where"].MaxArity == 1
+//@   ensures haskey(baseTable, "select") && baseTable["select"].Func == impl.Select && baseTable["select"].MinArity == 1 && baseTable["select"].MaxArity == 1
+//@   ensures haskey(baseTable, "repeat") && baseTable["repeat"].Func == unimplemented
+//@   ensures haskey(baseTable, "ofType") && baseTable["ofType"].Func == unimplemented
+//@   ensures haskey(baseTable, "single") && baseTable["single"].Func == unimplemented
+//@   ensures haskey(baseTable, "first") && baseTable["first"].Func == impl.First && baseTable["first"].MinArity == 0 && baseTable["first"].MaxArity == 0
+//@   ensures haskey(baseTable, "last") && baseTable["last"].Func == impl.Last && baseTable["last"].MinArity == 0 && baseTable["last"].MaxArity == 0
+//@   ensures haskey(baseTable, "tail") && baseTable["tail"].Func == impl.Tail && baseTable["tail"].MinArity == 0 && baseTable["tail"].MaxArity == 0
+//@   ensures haskey(baseTable, "skip") && baseTable["skip"].Func == impl.Skip && baseTable["skip"].MinArity == 1 && baseTable["skip"].MaxArity == 1
+//@   ensures haskey(baseTable, "take") && baseTable["take"].Func == impl.Take && baseTable["take"].MinArity == 1 && baseTable["take"].MaxArity == 1
+//@   ensures haskey(baseTable, "intersect") && baseTable["intersect"].Func == impl.Intersect && baseTable["intersect"].MinArity == 1 && baseTable["intersect"].MaxArity == 1
+//@   ensures haskey(baseTable, "exclude") && baseTable["exclude"].Func == impl.Exclude && baseTable["exclude"].MinArity == 1 && baseTable["exclude"].MaxArity == 1
+//@   ensures haskey(baseTable, "union") && baseTable["union"].Func == unimplemented
+//@   ensures haskey(baseTable, "combine") && baseTable["combine"].Func == unimplemented
+//@   ensures haskey(baseTable, "iif") && baseTable["iif"].Func == impl.Iif && baseTable["iif"].MinArity == 2 && baseTable["iif"].MaxArity == 3
+//@   ensures haskey(baseTable, "toBoolean") && baseTable["toBoolean"].Func == impl.ToBoolean && baseTable["toBoolean"].MinArity == 0 && baseTable["toBoolean"].MaxArity == 0
+//@   ensures haskey(baseTable, "convertsToBoolean") && baseTable["convertsToBoolean"].Func == impl.ConvertsToBoolean && baseTable["convertsToBoolean"].MinArity == 0 && baseTable["convertsToBoolean"].MaxArity == 0
+//@   ensures haskey(baseTable, "toInteger") && baseTable["toInteger"].Func == impl.ToInteger && baseTable["toInteger"].MinArity == 0 && baseTable["toInteger"].MaxArity == 0
+//@   ensures haskey(baseTable, "convertsToInteger") && baseTable["convertsToInteger"].Func == impl.ConvertsToInteger && baseTable["convertsToInteger"].MinArity == 0 && baseTable["convertsToInteger"].MaxArity == 0
+//@   ensures haskey(baseTable, "toDate") && baseTable["toDate"].Func == impl.ToDate && baseTable["toDate"].MinArity == 0 && baseTable["toDate"].MaxArity == 0
+//@   ensures haskey(baseTable, "convertsToDate") && baseTable["convertsToDate"].Func == impl.ConvertsToDate && baseTable["convertsToDate"].MinArity == 0 && baseTable["convertsToDate"].MaxArity == 0
+//@   ensures haskey(baseTable, "toDateTime") && baseTable["toDateTime"].Func == impl.ToDateTime && baseTable["toDateTime"].MinArity == 0 && baseTable["toDateTime"].MaxArity == 0
+//@   ensures haskey(baseTable, "convertsToDateTime") && baseTable["convertsToDateTime"].Func == impl.ConvertsToDateTime && baseTable["convertsToDateTime"].MinArity == 0 && baseTable["convertsToDateTime"].MaxArity == 0
+//@   ensures haskey(baseTable, "toDecimal") && baseTable["toDecimal"].Func == impl.ToDecimal && baseTable["toDecimal"].MinArity == 0 && baseTable["toDecimal"].MaxArity == 0
+//@   ensures haskey(baseTable, "convertsToDecimal") && baseTable["convertsToDecimal"].Func == impl.ConvertsToDecimal && baseTable["convertsToDecimal"].MinArity == 0 && baseTable["convertsToDecimal"].MaxArity == 0
+//@   ensures haskey(baseTable, "toQuantity") && baseTable["toQuantity"].Func == impl.ToQuantity && baseTable["toQuantity"].MinArity == 0 && baseTable["toQuantity"].MaxArity == 1
+//@   ensures haskey(baseTable, "convertsToQuantity") && baseTable["convertsToQuantity"].Func == impl.ConvertsToQuantity && baseTable["convertsToQuantity"].MinArity == 0 && baseTable["convertsToQuantity"].MaxArity == 1
+//@   ensures haskey(baseTable, "toString") && baseTable["toString"].Func == impl.ToString && baseTable["toString"].MinArity == 0 && baseTable["toString"].MaxArity == 0
+//@   ensures haskey(baseTable, "convertsToString") && baseTable["convertsToString"].Func == impl.ConvertsToString && baseTable["convertsToString"].MinArity == 0 && baseTable["convertsToString"].MaxArity == 0
+//@   ensures haskey(baseTable, "toTime") && baseTable["toTime"].Func == impl.ToTime && baseTable["toTime"].MinArity == 0 && baseTable["toTime"].MaxArity == 0
+//@   ensures haskey(baseTable, "convertsToTime") && baseTable["convertsToTime"].Func == impl.ConvertsToTime && baseTable["convertsToTime"].MinArity == 0 && baseTable["convertsToTime"].MaxArity == 0
+//@   ensures haskey(baseTable, "indexOf") && baseTable["indexOf"].Func == impl.IndexOf && baseTable["indexOf"].MinArity == 1 && baseTable["indexOf"].MaxArity == 1
+//@   ensures haskey(baseTable, "substring") && baseTable["substring"].Func == impl.Substring && baseTable["substring"].MinArity == 1 && baseTable["substring"].MaxArity == 2
+//@   ensures haskey(baseTable, "startsWith") && baseTable["startsWith"].Func == impl.StartsWith && baseTable["startsWith"].MinArity == 1 && baseTable["startsWith"].MaxArity == 1
+//@   ensures haskey(baseTable, "endsWith") && baseTable["endsWith"].Func == impl.EndsWith && baseTable["endsWith"].MinArity == 1 && baseTable["endsWith"].MaxArity == 1
+//@   ensures haskey(baseTable, "contains") && baseTable["contains"].Func == impl.Contains && baseTable["contains"].MinArity == 1 && baseTable["contains"].MaxArity == 1
+//@   ensures haskey(baseTable, "upper") && baseTable["upper"].Func == impl.Upper && baseTable["upper"].MinArity == 0 && baseTable["upper"].MaxArity == 0
+//@   ensures haskey(baseTable, "lower") && baseTable["lower"].Func == impl.Lower && baseTable["lower"].MinArity == 0 && baseTable["lower"].MaxArity == 0
+//@   ensures haskey(baseTable, "replace") && baseTable["replace"].Func == impl.Replace && baseTable["replace"].MinArity == 2 && baseTable["replace"].MaxArity == 2
+//@   ensures haskey(baseTable, "matches") && baseTable["matches"].Func == impl.Matches && baseTable["matches"].MinArity == 1 && baseTable["matches"].MaxArity == 1
+//@   ensures haskey(baseTable, "replaceMatches") && baseTable["replaceMatches"].Func == impl.ReplaceMatches && baseTable["replaceMatches"].MinArity == 2 && baseTable["replaceMatches"].MaxArity == 2
+//@   ensures haskey(baseTable, "length") && baseTable["length"].Func == impl.Length && baseTable["length"].MinArity == 0 && baseTable["length"].MaxArity == 0
+//@   ensures haskey(baseTable, "toChars") && baseTable["toChars"].Func == impl.ToChars && baseTable["toChars"].MinArity == 0 && baseTable["toChars"].MaxArity == 0
+//@   ensures haskey(baseTable, "abs") && baseTable["abs"].Func == impl.Abs && baseTable["abs"].MinArity == 0 && baseTable["abs"].MaxArity == 0
+//@   ensures haskey(baseTable, "ceiling") && baseTable["ceiling"].Func == impl.Ceiling && baseTable["ceiling"].MinArity == 0 && baseTable["ceiling"].MaxArity == 0
+//@   ensures haskey(baseTable, "exp") && baseTable["exp"].Func == impl.Exp && baseTable["exp"].MinArity == 0 && baseTable["exp"].MaxArity == 0
+//@   ensures haskey(baseTable, "floor") && baseTable["floor"].Func == impl.Floor && baseTable["floor"].MinArity == 0 && baseTable["floor"].MaxArity == 0
+//@   ensures haskey(baseTable, "ln") && baseTable["ln"].Func == impl.Ln && baseTable["ln"].MinArity == 0 && baseTable["ln"].MaxArity == 0
+//@   ensures haskey(baseTable, "log") && baseTable["log"].Func == impl.Log && baseTable["log"].MinArity == 1 && baseTable["log"].MaxArity == 1
+//@   ensures haskey(baseTable, "power") && baseTable["power"].Func == impl.Power && baseTable["power"].MinArity == 1 && baseTable["power"].MaxArity == 1
+//@   ensures haskey(baseTable, "round") && baseTable["round"].Func == impl.Round && baseTable["round"].MinArity == 0 && baseTable["round"].MaxArity == 1
+//@   ensures haskey(baseTable, "sqrt") && baseTable["sqrt"].Func == impl.Sqrt && baseTable["sqrt"].MinArity == 0 && baseTable["sqrt"].MaxArity == 0
+//@   ensures haskey(baseTable, "truncate") && baseTable["truncate"].Func == impl.Truncate && baseTable["truncate"].MinArity == 0 && baseTable["truncate"].MaxArity == 0
+//@   ensures haskey(baseTable, "children") && baseTable["children"].Func == impl.Children && baseTable["children"].MinArity == 0 && baseTable["children"].MaxArity == 0
+//@   ensures haskey(baseTable, "descendants") && baseTable["descendants"].Func == impl.Descendants && baseTable["descendants"].MinArity == 0 && baseTable["descendants"].MaxArity == 0
+//@   ensures haskey(baseTable, "trace") && baseTable["trace"].Func == unimplemented
+//@   ensures haskey(baseTable, "now") && baseTable["now"].Func == impl.Now && baseTable["now"].MinArity == 0 && baseTable["now"].MaxArity == 0
+//@   ensures haskey(baseTable, "timeOfDay") && baseTable["timeOfDay"].Func == impl.TimeOfDay && baseTable["timeOfDay"].MinArity == 0 && baseTable["timeOfDay"].MaxArity == 0
+//@   ensures haskey(baseTable, "today") && baseTable["today"].Func == impl.Today && baseTable["today"].MinArity == 0 && baseTable["today"].MaxArity == 0
+//@   ensures haskey(baseTable, "not") && baseTable["not"].Func == impl.Not && baseTable["not"].MinArity == 0 && baseTable["not"].MaxArity == 0
+//@   ensures haskey(baseTable, "extension") && baseTable["extension"].Func == impl.Extension && baseTable["extension"].MinArity == 1 && baseTable["extension"].MaxArity == 1
+//@   ensures forall s string :: haskey(baseTable, s) ==> s == "empty" || s == "exists" || s == "all" || s == "allTrue" || s == "anyTrue" || s == "allFalse" || s == "anyFalse" || s == "subsetOf" || s == "supersetOf" || s == "count" || s == "distinct" || s == "isDistinct" || s == "where" || s == "select" || s == "repeat" || s == "ofType" || s == "single" || s == "first" || s == "last" || s == "tail" || s == "skip" || s == "take" || s == "intersect" || s == "exclude" || s == "union" || s == "combine" || s == "iif" || s == "toBoolean" || s == "convertsToBoolean" || s == "toInteger" || s == "convertsToInteger" || s == "toDate" || s == "convertsToDate" || s == "toDateTime" || s == "convertsToDateTime" || s == "toDecimal" || s == "convertsToDecimal" || s == "toQuantity" || s == "convertsToQuantity" || s == "toString" || s == "convertsToString" || s == "toTime" || s == "convertsToTime" || s == "indexOf" || s == "substring" || s == "startsWith" || s == "endsWith" || s == "contains" || s == "upper" || s == "lower" || s == "replace" || s == "matches" || s == "replaceMatches" || s == "length" || s == "toChars" || s == "abs" || s == "ceiling" || s == "exp" || s == "floor" || s == "ln" || s == "log" || s == "power" || s == "round" || s == "sqrt" || s == "truncate" || s == "children" || s == "descendants" || s == "trace" || s == "now" || s == "timeOfDay" || s == "today" || s == "not" || s == "extension"
+//@   ensures haskey(experimentalTable, "join") && experimentalTable["join"].Func == impl.Join && experimentalTable["join"].MinArity == 0 && experimentalTable["join"].MaxArity == 1
+//@   ensures forall s string :: haskey(experimentalTable, s) ==> s == "join"
+//
+//@ func unimplemented(ctx, input, args) (res, err)
+//@   ensures err != nil && !is(err, impl.ErrWrongArity)
+//@   assigns nothing
+//
+// C04/C16: Clone returns a fresh table with exactly the entries of the base table; the base
+// table itself is not written.
+//@ func Clone() (res)
+//@   ensures res != nil
+//@   ensures forall s string :: haskey(res, s) == haskey(baseTable, s)
+//@   ensures forall s string :: haskey(baseTable, s) ==> res[s] == baseTable[s]
+//@   fresh res
+//@   loop 1 (visited):
+//@     invariant table != nil && fresh(table)
+//@     invariant forall s string :: haskey(baseTable, s) == old(haskey(baseTable, s)) && baseTable[s] == old(baseTable[s])
+//@     invariant forall s string :: haskey(table, s) == visited[s]
+//@     invariant forall s string :: visited[s] ==> haskey(baseTable, s) && table[s] == baseTable[s]
+//@   assigns nothing
+//
+// AddExperimentalFuncs adds the experimental entries to the given table and never overrides
+// an existing entry; no other map is written.
+//@ func AddExperimentalFuncs(table) (res)
+//@   requires table != nil && table != experimentalTable
+//@   ensures res == table
+//@   ensures forall s string :: old(haskey(table, s)) ==> haskey(table, s) && table[s] == old(table[s])
+//@   ensures forall s string :: haskey(table, s) == (old(haskey(table, s)) || haskey(experimentalTable, s))
+//@   ensures forall s string :: !old(haskey(table, s)) && haskey(experimentalTable, s) ==> table[s] == experimentalTable[s]
+//@   loop 1 (visited):
+//@     invariant forall s string :: haskey(experimentalTable, s) == old(haskey(experimentalTable, s)) && experimentalTable[s] == old(experimentalTable[s])
+//@     invariant forall s string :: old(haskey(table, s)) ==> haskey(table, s) && table[s] == old(table[s])
+//@     invariant forall s string :: haskey(table, s) == (old(haskey(table, s)) || visited[s])
+//@     invariant forall s string :: visited[s] ==> haskey(experimentalTable, s)
+//@     invariant forall s string :: visited[s] && !old(haskey(table, s)) ==> table[s] == experimentalTable[s]
+//@   assigns map:table
+//
+// Register adds a custom function under a new name only: an existing (built-in or earlier)
+// name is rejected and the table is left as it was.
+//@ func (t FunctionTable) Register(name, fn) (err)
+//@   requires t != nil
+//@   ensures old(haskey(t, name)) ==> err != nil
+//@   ensures err != nil ==> (forall s string :: haskey(t, s) == old(haskey(t, s)) && t[s] == old(t[s]))
+//@   ensures err == nil ==> haskey(t, name) && (forall s string :: s != name ==> haskey(t, s) == old(haskey(t, s)) && t[s] == old(t[s]))
+//@   assigns map:t
